@@ -13,6 +13,7 @@ import itertools
 import numpy as np
 
 from tflv import core
+from tflv import modes
 from tflv.gen import lattice as gen
 from tflv.oracles import lattice as ol
 
@@ -134,14 +135,15 @@ def gen_cases(ctx):
     nb = 24 if ctx.tier == "quick" else 40
     yield {"sizes": sizes, "units": units, "interp": interp, "clip": clip, "form": form,
            "kmode": kmode, "kclass": kclass, "w": w.tolist(), "nb": nb,
-           "pseed": int(rng.randint(2**31 - 1)), "shape_cls": shape_cls}
+           "pseed": int(rng.randint(2**31 - 1)), "shape_cls": shape_cls,
+           "exec": modes.pick(rng, (0.5, 0.2, 0.3)), "dtype": "float64" if rng.rand() < .15 else "float32"}
 
 
-def _feed(tf, x, units, rank, form):
+def _feed(tf, x, units, rank, form, dtype="float32"):
   """x: (nb, units, rank) float32 -> layer input in the requested form, and a
   function mapping the layer output back to (nb, units)."""
   nb = x.shape[0]
-  xin = x if units > 1 else x[:, 0, :]
+  xin = (x if units > 1 else x[:, 0, :]).astype(dtype)
   if form in ("extra_batch", "list_extra_batch"):
     # split batch into (2, nb/2, ...)
     xin = xin.reshape((2, nb // 2) + xin.shape[1:])
@@ -200,11 +202,14 @@ def run_case(ctx, case):
                   for u in range(units)], axis=1)
 
   # ---- layer boundary ---------------------------------------------------------
-  layer = ll.Lattice(lattice_sizes=sizes, units=units, interpolation=interp, clip_inputs=clip)
-  inp, back = _feed(tf, x, units, rank, case["form"])
+  ex, dt = case.get("exec", "eager"), case.get("dtype", "float32")
+  ctx.cls("exec:" + ex, "dtype:" + dt)
+  layer = ll.Lattice(lattice_sizes=sizes, units=units, interpolation=interp, clip_inputs=clip,
+                     **({} if dt == "float32" else {"dtype": dt}))
+  inp, back = _feed(tf, x, units, rank, case["form"], dt)
   y = back(layer(inp).numpy())
   layer.kernel.assign(w)
-  y = back(layer(inp).numpy())
+  y = back(modes.call(tf, ex, layer, inp).numpy())
   err = np.abs(y - ref)
   for b in range(nb):
     e = float(err[b].max())
@@ -215,7 +220,8 @@ def run_case(ctx, case):
               ratio=e / tol)
   # ---- lib function directly (both schemes) --------------------------------------
   fn = lib.evaluate_with_hypercube_interpolation if interp == "hypercube" else lib.evaluate_with_simplex_interpolation
-  y2 = back(fn(inputs=inp, kernel=tf.constant(w), units=units, lattice_sizes=sizes, clip_inputs=clip).numpy())
+  y2 = back(modes.call(tf, ex, lambda t: fn(inputs=t, kernel=tf.constant(w.astype(dt)), units=units, lattice_sizes=sizes,
+                                            clip_inputs=clip), inp).numpy())
   err2 = np.abs(y2 - ref)
   for b in range(nb):
     e = float(err2[b].max())
@@ -248,7 +254,7 @@ def run_case(ctx, case):
   def evaluate(points, interpolation=interp):
     """points (k, units, rank) -> (k, units) through a fresh call of the layer."""
     lay = layer if interpolation == interp else _other_layer()
-    t = tf.constant(points.astype(np.float32)) if units > 1 else tf.constant(points[:, 0, :].astype(np.float32))
+    t = tf.constant(points.astype(dt)) if units > 1 else tf.constant(points[:, 0, :].astype(dt))
     return np.asarray(lay(t).numpy()).reshape(points.shape[0], units)
 
   other = {}
@@ -256,7 +262,8 @@ def run_case(ctx, case):
   def _other_layer():
     if "l" not in other:
       o = ll.Lattice(lattice_sizes=sizes, units=units, clip_inputs=clip,
-                     interpolation="simplex" if interp == "hypercube" else "hypercube")
+                     interpolation="simplex" if interp == "hypercube" else "hypercube",
+                     **({} if dt == "float32" else {"dtype": dt}))
       o.build((None, rank) if units == 1 else (None, units, rank))
       o.kernel.assign(w)
       other["l"] = o
@@ -329,4 +336,4 @@ def run_case(ctx, case):
                     list(ew), eff.T.tolist()),
                 info={"trust": list(ew), "base": base.tolist()})
   nontrivial = float(W.max() - W.min()) > 0
-  return nontrivial, core.digest([sizes, units, interp, clip, case["form"], core.arr_digest(w, x)])
+  return nontrivial, core.digest([sizes, units, interp, clip, case["form"], ex, dt, core.arr_digest(w, x)])
